@@ -165,6 +165,23 @@ def r03_1(ctx, rr):
                 asg = [x for x in walk(n) if x.get("k") == "Assign" and x["l"].get("k") == "Path" and x["l"].get("id") in ids and x["r"].get("k") == "Path" and x["r"].get("id") in ids]
                 if len(ids) == 2 and asg:
                     idiom = "A"
+    if idiom is None:
+        # (C) `values.windows(2).find/any/position(|p| p[1] < p[0])` whose hit leads to the panic
+        for n in walk(b.body):
+            if n.get("k") == "MethodCall" and n["name"] in ("find", "any", "position", "all") and n.get("args") and n["args"][0].get("k") == "Closure":
+                chain = [c[0] for c in method_chain(F, n["recv"])] + ([n["recv"].get("name")] if n["recv"].get("k") == "MethodCall" else [])
+                if "windows" not in chain:
+                    continue
+                w2 = [x for x in walk(n["recv"]) if x.get("k") == "MethodCall" and x["name"] == "windows" and x.get("args") and str(x["args"][0].get("v")) == "2"]
+                cl = n["args"][0]
+                cmpn = [x for x in walk(cl["body"]) if x.get("k") == "Binary" and x["op"] in ("<", ">", "<=", ">=")]
+                def lit_idx(e):
+                    while e.get("k") in ("Unary", "AddrOf"):
+                        e = e["e"]
+                    return int(e["i"]["v"]) if e.get("k") == "Index" and e["i"].get("k") == "Lit" else None
+                adjacent = any({lit_idx(x["l"]), lit_idx(x["r"])} == {0, 1} for x in cmpn)
+                if w2 and adjacent:
+                    idiom = "C"
     rr.instances += 1
     rr.check(idiom is not None, "From<A>:prescan-all-pairs", "From<A> for EliasFano must compare every consecutive pair of the input (a loop over all elements carrying the previous one, or windows(2)); chunked or strided scans let a descent between chunks through to push_unchecked", b.span)
     news = [n for n in walk(b.body) if callee_is(F, n, "EliasFanoBuilder::new")]
@@ -536,7 +553,8 @@ def r06_2(ctx, rr):
     for fn in (r"^bits::bit_vec::OnesIterator::<'a, B>::new$", r"^bits::bit_vec::ZerosIterator::<'a, B>::new$",
                r"^<bits::bit_vec::OnesIterator<'_, B> as std::iter::Iterator>::next$", r"^<bits::bit_vec::ZerosIterator<'_, B> as std::iter::Iterator>::next$",
                r"^dict::elias_fano::EliasFanoIterator::<'a, H, L>::new$"):
-        wrapper_sites(ctx, rr, fn, "slice::get_unchecked")
+        # a constructor may also take its first word through a checked API (`first()`): then there is nothing to discharge
+        wrapper_sites(ctx, rr, fn, "slice::get_unchecked", min_sites=0 if fn.endswith("::new$") else 1)
     for fn in (r"^bits::bit_vec::BitVec::<B>::get$", r"^bits::bit_vec::AtomicBitVec::<B>::get$"):
         wrapper_sites(ctx, rr, fn, fn.split("::")[2].split("<")[0].replace("\\", "") + "::get_unchecked")
     wrapper_sites(ctx, rr, r"^bits::bit_vec::BitVec::<B>::set$", "BitVec::set_unchecked")
@@ -761,7 +779,7 @@ def r12_4(ctx, rr):
         raise AnchorMissing("from_slice: no `return Err(..)`")
     for n, K in errs:
         rr.instances += 1
-        ok = any(a[0] == "le" and a[3] <= -1 and a[1][0] == "def" and a[1][1].endswith("BITS") and a[2][0] == "var" for a in K.atoms)
+        ok = any(a[0] == "le" and a[3] <= -1 and a[1][0] == "def" and a[1][1].endswith("BITS") and a[2][0] not in ("int", "def") for a in K.atoms)
         rr.ob(ok, key="BitFieldVec::from_slice:rejects-only-too-wide", sample={"established": K.show()[:4]})
         if not ok:
             rr.violate("BitFieldVec::from_slice:rejects-only-too-wide", "from_slice refuses its input at `%s` although `W::BITS < needed width` is not established (established: %s): a source whose largest value needs exactly W::BITS bits fits a full-width vector and must be accepted" % (show(F, n)[:60], "; ".join(K.show()[:4])), F.loc(n))
